@@ -23,6 +23,7 @@ RULE = (
     "snapshot equality after save/load and clone; an independent decode of the written instrument record, sample records and envelope chunks "
     "at their documented offsets equals the object's values; legacy conversion computed independently from the record bytes; legacy "
     "instruments keep their data across save/load; plus edit histories (load - edit samples / envelopes / map / effect in place, optionally saving in between - save - load). non-trivial = a sample at index > 0, a non-default envelope, or non-zero editor fields"
+    ' Also (added while the seeded-change rounds of DESIGN section 9 ran): Also: one Sample object in several slots, format byte patterns and white-space tails in names / maps / data, large samples, failed saves in the past, repeated saves / write_to variants / clone of loaded legacy instruments.'
 )
 ASSUMPTIONS = [
     "instrument record layout (400 bytes) from the struct comments quoted in sampler.py + the offsets in docs/sunvox-file-format.rst; sample record 44 bytes (start_pos at 0x28)",
